@@ -210,6 +210,49 @@ pub fn run(tier: &str, seed: u64, em: &mut Emitter) {
             em.emit("systematic-content", case_sx(v, 3, ty, &all, None), run_case(v, 3, ty, &all, None));
         }
     }
+    // Systematic: every shape of `third_party_invite` in a member event, every version, every entry point.
+    for v in 1..=11u32 {
+        for shape in 0..8u32 {
+            let mut tpi = CanonicalJsonObject::new();
+            let val = match shape {
+                0 => CanonicalJsonValue::Object(tpi),
+                1 => {
+                    tpi.insert("signed".into(), CanonicalJsonValue::Object(CanonicalJsonObject::new()));
+                    CanonicalJsonValue::Object(tpi)
+                }
+                2 => {
+                    tpi.insert("signed".into(), CanonicalJsonValue::Null);
+                    tpi.insert("display_name".into(), CanonicalJsonValue::String("n".into()));
+                    CanonicalJsonValue::Object(tpi)
+                }
+                3 => {
+                    tpi.insert("display_name".into(), CanonicalJsonValue::String("n".into()));
+                    CanonicalJsonValue::Object(tpi)
+                }
+                4 => {
+                    tpi.insert("Signed".into(), CanonicalJsonValue::Null);
+                    tpi.insert("signed ".into(), CanonicalJsonValue::Null);
+                    tpi.insert("a".into(), CanonicalJsonValue::Null);
+                    tpi.insert("z".into(), CanonicalJsonValue::Null);
+                    CanonicalJsonValue::Object(tpi)
+                }
+                5 => CanonicalJsonValue::Array(vec![]),
+                6 => CanonicalJsonValue::String("signed".into()),
+                _ => CanonicalJsonValue::Null,
+            };
+            let mut content = CanonicalJsonObject::new();
+            content.insert("membership".into(), CanonicalJsonValue::String("invite".into()));
+            content.insert("third_party_invite".into(), val);
+            let mut ev = CanonicalJsonObject::new();
+            ev.insert("type".into(), CanonicalJsonValue::String("m.room.member".into()));
+            ev.insert("sender".into(), CanonicalJsonValue::String("@a:b".into()));
+            ev.insert("content".into(), CanonicalJsonValue::Object(content.clone()));
+            for op in 0..2 {
+                em.emit("systematic-tpi", case_sx(v, op, "", &ev, None), run_case(v, op, "", &ev, None));
+            }
+            em.emit("systematic-tpi", case_sx(v, 3, "m.room.member", &content, None), run_case(v, 3, "m.room.member", &content, None));
+        }
+    }
     // Random structured stream.
     for _ in 0..n_events {
         let ev = gen_event(&mut r);
